@@ -341,6 +341,11 @@ _DELM = {'t': 'DeleteModel', 'model': 'Beta'}
 _DELF = {'t': 'DeleteField', 'model': 'Beta', 'field': 'd'}
 _CHG = {'t': 'ChangeField', 'model': 'Beta', 'field': 'c', 'ftype': None, 'initial': None, 'attrs': [['null', 'true']]}
 
+_IX1 = {'t': 'ChangeMeta', 'model': 'Alpha', 'prop': 'indexes', 'py_value': [{'name': 'alpha_a_idx', 'fields': ['a']}]}
+_IX2 = {'t': 'ChangeMeta', 'model': 'Alpha', 'prop': 'indexes',
+        'py_value': [{'name': 'alpha_a_idx', 'fields': ['a']}, {'name': 'alpha_b_idx', 'fields': ['b']}]}
+_UT1 = {'t': 'ChangeMeta', 'model': 'Alpha', 'prop': 'unique_together', 'py_value': [('a', 'b')]}
+_UT2 = {'t': 'ChangeMeta', 'model': 'Alpha', 'prop': 'unique_together', 'py_value': [('a', 'b'), ('b', 'a')]}
 _ADDFK = {'t': 'AddField', 'model': 'Beta', 'field': 'owner', 'ftype': 'ForeignKey', 'initial': None,
           'attrs': [['null', 'true'], ['related_model', '"vapp.Alpha"']]}
 _RNF = {'t': 'RenameField', 'model': 'Alpha', 'old': 'b', 'new': 'bb', 'db_column': None, 'db_table': None}
@@ -404,6 +409,12 @@ FAMILY = [
                    {'t': 'ChangeMeta', 'model': 'Alpha', 'prop': 'db_table_comment', 'py_value': 'shelf of things'}]},
     {'spec0': _two(), 'valid': [_ADD], 'perturbation': 'family:unsupported Meta property next to a dropped AddField',
      'evolution': [{'t': 'ChangeMeta', 'model': 'Alpha', 'prop': 'db_table_comment', 'py_value': 'shelf of things'}]},
+    # the same Meta property stated twice with different values, in the wrong order (each statement carries the
+    # complete value: the LAST one is what the evolution means)
+    {'spec0': _two(), 'valid': [_IX2, _IX1], 'perturbation': 'family:two ChangeMeta(indexes) reordered',
+     'evolution': [_IX1, _IX2]},
+    {'spec0': _two(), 'valid': [_UT2, _UT1], 'perturbation': 'family:two ChangeMeta(unique_together) reordered',
+     'evolution': [_UT1, _UT2]},
     # a relation added with another relation class than the models have (OneToOneField is a subclass of ForeignKey,
     # but its column is UNIQUE), and the other way round
     {'spec0': _two(), 'valid': [_ADDFK], 'perturbation': 'family:relation class OneToOneField for ForeignKey',
